@@ -11,6 +11,9 @@ import replaylib as rl
 from c09 import value_eq, describe
 
 IMPORTS = ('From SV Require Import Base.Sym Base.Tensor Gen.PhasePerm Model.SymInst Model.Sectors Model.Array Model.Arith Model.Fermi.\n')
+# the executable chain functions (chain_contract / conj_chain / chain_norm) of Props/C10d.v live in a Proofs file
+IMPORTS_CHAIN = ('From SV Require Import Base.Sym Base.Tensor Gen.PhasePerm Model.SymInst Model.Sectors Model.Array Model.Arith Model.Fermi '
+                 'Proofs.NetworkNormProofs.\n')
 SYMS = ['Z2', 'U1', 'Z2Z2', 'U1U1']
 
 
@@ -101,13 +104,47 @@ def conj_network(tensors):
     return out
 
 
+def chain_steps(tens):
+    """left-to-right steps (tensor, axes of the running result, axes of the tensor) of a network listed in chain order"""
+    legs = list(tens[0].legs)
+    steps = []
+    for t in tens[1:]:
+        shared = [l for l in legs if l in t.legs]
+        steps.append((t.arr, [legs.index(l) for l in shared], [t.legs.index(l) for l in shared]))
+        legs = [l for l in legs if l not in shared] + [l for l in t.legs if l not in shared]
+    return steps
+
+
+def chain_impl(sr, first, steps):
+    """the implementation's left-to-right ket y_n, the conjugated network contracted in the reversed order c_n
+    (transposed back to the leg order of y_n after every step) and <N|N> = tensordot(flip(c_n), y_n)"""
+    y = first
+    c = first.conj()
+    for (t, aa, ab) in steps:
+        nl, nr = c.ndim - len(aa), t.ndim - len(ab)
+        y = sr.tensordot(y, t, axes=(aa, ab), mode='blockwise', preserve_array=True)
+        c2 = sr.tensordot(t.conj(), c, axes=(ab, aa), mode='blockwise', preserve_array=True)
+        c = c2.transpose(tuple(range(nr, nr + nl)) + tuple(range(nr)))
+    flip = [k for k, ix in enumerate(c.indices) if not ix.dual]
+    cf = c.phase_flip(*flip) if flip else c
+    n = y.ndim
+    z = sr.tensordot(cf, y, axes=(list(range(n)), list(range(n))), mode='blockwise', preserve_array=True)
+    return y, c, z
+
+
+def gsteps(steps, sym, ring):
+    return '[' + '; '.join('(%s, %s, %s)' % (gen.gfarray(t, sym, ring), gen.gnatlist(aa), gen.gnatlist(ab)) for t, aa, ab in steps) + ']'
+
+
 def run(ctx):
     import symmray as sr
     ok = common.standard_proof_phase(ctx)
     rng = ctx.rng
     n_cases = 600 if ctx.thorough else 120
     exprs, meta, found = [], [], []
-    stats = {'odd': 0, 'mixed_dual': 0, 'pending': 0, 'complex': 0, 'networks': 0, 'net_with_bra_dangling': 0, 'multi_label': 0}
+    chain_exprs, chain_meta = [], []
+    stats = {'odd': 0, 'mixed_dual': 0, 'pending': 0, 'complex': 0, 'networks': 0, 'net_with_bra_dangling': 0, 'multi_label': 0,
+             'chain_cases': 0, 'chain_odd_result': 0}
     for k in range(n_cases):
         sym = SYMS[k % len(SYMS)]
         cplx = rng.random() < 0.4
@@ -208,6 +245,31 @@ def run(ctx):
 
             def rp_net():
                 return rl.record('network', {'tensors': net_full}, {'symmetry': sym, 'legs': [t.legs for t in tens], 'rng': net_rng})
+            # ---- the left-to-right chain of Props/C10d.v: model tie + norm oracle
+            try:
+                steps = chain_steps(tens)
+                yk, ck, zk = chain_impl(sr, tens[0].arr, steps)
+                cring = gen.ring_of(*([t.arr for t in tens] + [yk, ck, zk]))
+                CA = '%s %s' % (sym, cring)
+                g1, gl = gen.gfarray(tens[0].arr, sym, cring), gsteps(steps, sym, cring)
+                for what, term, res in (('chain_contract', 'chain_contract %s %s %s' % (CA, g1, gl), yk),
+                                        ('conj_chain', 'conj_chain %s (f_conj %s %s true false) %s' % (CA, CA, g1, gl), ck),
+                                        ('chain_norm', 'chain_norm %s %s %s' % (CA, g1, gl), zk)):
+                    chain_exprs.append('match %s with Some y => farray_eqb %s y %s | None => false end' % (term, CA, gen.gfarray(res, sym, cring)))
+                    chain_meta.append((what, sym, k)); ctx.count()
+                stats['chain_cases'] += 1
+                stats['chain_odd_result'] += refsym.par(sym, yk.charge)
+                ctx.count()
+                want_c = norm2_exact(yk)
+                got_c = scalar_of(TN(zk, []))
+                if abs(got_c - want_c) > 1e-9 * max(1.0, want_c):
+                    found.append({'op': 'chain norm <N|N> (left to right, bra in reversed order)', 'symmetry': sym,
+                                  'tensors': [describe(t.arr) for t in tens], 'legs': [t.legs for t in tens], 'got': got_c, 'expected': want_c,
+                                  'replay': rl.record('chain', {'tensors': net_full}, {'symmetry': sym, 'legs': [t.legs for t in tens]})})
+            except Exception as e:
+                found.append({'op': 'chain norm', 'symmetry': sym, 'tensors': [describe(t.arr) for t in tens], 'legs': [t.legs for t in tens],
+                              'raised': '%s: %s' % (type(e).__name__, e),
+                              'replay': rl.record('chain', {'tensors': net_full}, {'symmetry': sym, 'legs': [t.legs for t in tens]})})
             try:
                 ket = contract_route(sr, tens, random_route(rng, ntens), rng)
                 ket_arr = ket.arr.phase_sync()
@@ -234,6 +296,12 @@ def run(ctx):
     elif bad_idx:
         tie_broken += ['Model.%s disagrees with the implementation (symmetry %s, case %d)' % meta[i] for i in bad_idx[:10]]
         ctx.extra['disagreeing_cases'] = [exprs[i][:3000] for i in bad_idx[:2]]
+    bad_chain = common.run_cases(ctx, 'chain', IMPORTS_CHAIN, '', chain_exprs, shard=60)
+    if bad_chain is None:
+        tie_broken.append('cases.v (chain_contract / conj_chain / chain_norm vs implementation) did not evaluate')
+    elif bad_chain:
+        tie_broken += ['NetworkNormProofs.%s disagrees with the implementation (symmetry %s, case %d)' % chain_meta[i] for i in bad_chain[:10]]
+        ctx.extra['disagreeing_chain_cases'] = [chain_exprs[i][:3000] for i in bad_chain[:2]]
     seen = set()
     for f in found:
         if f['op'] in seen or len(seen) >= 5:
@@ -245,10 +313,12 @@ def run(ctx):
         ctx.violation('proof obligation or tie of C10 no longer checks',
                       {'broken': ctx.broken, 'replay': rl.record('proof_phase')}, found_input=False)
     ctx.extra['case_classes'] = stats
-    ctx.extra['tie'] = {'model_cases': len(exprs)}
+    ctx.extra['tie'] = {'model_cases': len(exprs), 'chain_cases': len(chain_exprs)}
     ctx.coverage['rule'] = ('random fermionic arrays (rank 1-3(+1), four symmetries, every dualness pattern, even/odd with labels incl. arrays carrying '
                             '>=2 labels, pending signs, real + Gaussian-integer) and 2-3 tensor networks (chains, triangles, dangling legs of both '
-                            'directions) conjugated tensor by tensor and contracted along random routes in random modes; non-trivial = odd parity or '
+                            'directions) conjugated tensor by tensor and contracted along random routes in random modes, and as the left-to-right '
+                            'chain with the bra in the reversed order (chain_contract / conj_chain / chain_norm of Props/C10d.v against the '
+                            'blockwise implementation, plus the integer norm); non-trivial = odd parity or '
                             'pending signs, or a network; distinct by full structure')
 
 
@@ -320,7 +390,21 @@ def _rp_network(sr, ins, pr, r):
     return []
 
 
-ORACLES = {'norm': _rp_norm, 'adjoint': _rp_adjoint, 'network': _rp_network}
+def _rp_chain(sr, ins, pr, r):
+    """<N|N> of the left-to-right chain with the bra contracted in the reversed order against the integer |y_n|^2"""
+    tens = [TN(a, legs) for a, legs in zip(ins['tensors'], pr['legs'])]
+    try:
+        yk, ck, zk = chain_impl(sr, tens[0].arr, chain_steps(tens))
+        want = norm2_exact(yk)
+        got = scalar_of(TN(zk, []))
+        if abs(got - want) > 1e-9 * max(1.0, want):
+            return [{'what': 'chain norm <N|N>', 'expected': want, 'got': got}]
+    except Exception as e:
+        return [{'what': 'chain norm raises', 'expected': 'a number', 'got': '%s: %s' % (type(e).__name__, e)}]
+    return []
+
+
+ORACLES = {'norm': _rp_norm, 'adjoint': _rp_adjoint, 'network': _rp_network, 'chain': _rp_chain}
 
 
 def replay(path):
